@@ -507,11 +507,19 @@ func init() {
 	})
 	add("list mixed tx", 3, func(g *G) []string {
 		// blocking forms: in a single-threaded run they either find data or time out quickly
-		switch g.R.Intn(3) {
+		switch g.R.Intn(4) {
 		case 0:
 			return append(append([]string{g.pick("BLPOP", "BRPOP")}, g.keysN(1, 3)...), "0.01")
 		case 1:
 			return []string{"BLMOVE", g.Key(), g.Key(), g.pick("LEFT", "RIGHT"), g.pick("LEFT", "RIGHT"), "0.01"}
+		case 2:
+			ks := g.keysN(1, 3)
+			a := append([]string{"BLMPOP", "0.01", g.pick(strconv.Itoa(len(ks)), strconv.Itoa(len(ks)), strconv.Itoa(len(ks)), "1", "0")}, ks...)
+			a = append(a, g.kw(g.pick("LEFT", "RIGHT")))
+			if g.R.Intn(2) == 0 {
+				a = append(a, g.kw("COUNT"), g.pick("1", "2", "10", "0"))
+			}
+			return a
 		default:
 			return []string{"BRPOPLPUSH", g.Key(), g.Key(), "0.01"}
 		}
